@@ -645,6 +645,10 @@ func (w *World) newValue(o Op, into *Cont) (MV, atree.Value, error) {
 	// nested container classes: [s:]*A[:cls,cls…] / [s:]*M[:cls,…] create, populate and hand over a new child
 	wraps := 0
 	cl := o.V
+	for strings.HasPrefix(cl, "ss:") && isContClass(trimS(cl[3:])) {
+		wraps += 2
+		cl = cl[3:]
+	}
 	for strings.HasPrefix(cl, "s:") {
 		rest := cl[2:]
 		if strings.HasPrefix(rest, "A") || strings.HasPrefix(rest, "M") || strings.HasPrefix(rest, "s:") {
@@ -1445,4 +1449,17 @@ func (w *World) iterMut(c *Cont, o Op) error {
 		return violf("%s: iteration yields %d elements, want %d (an element is skipped)", o, i, n)
 	}
 	return w.after(c)
+}
+
+func trimS(cl string) string {
+	for {
+		switch {
+		case strings.HasPrefix(cl, "ss:"):
+			cl = cl[3:]
+		case strings.HasPrefix(cl, "s:"):
+			cl = cl[2:]
+		default:
+			return cl
+		}
+	}
 }
